@@ -559,6 +559,26 @@ def bounded(tier, seed):
                         return 'bpch1 and bpch2 present different %s: %r vs %r' % (k, np.asarray(f.variables[k][:]).tolist(), np.asarray(g.variables[k][:]).tolist())
                 return None
             run.case('C18:memory-mapped and block-walking readers agree', sig, t_bpch2)
+
+            def t_master(path=path, blocks=blocks, ntimes=ntimes):
+                # the common entry point `bpch` hands every option on to whichever reader it uses
+                from PseudoNetCDF.geoschemfiles import bpch
+                per = len(blocks) // ntimes
+                for reader, direct in (('bpch1', bpch1), ('bpch2', bpch2)):
+                    for ns in (True, False):
+                        m, d_ = bpch(path, noscale=ns, reader=reader), direct(path, noscale=ns)
+                        for b in blocks[:per]:
+                            k = key(b)
+                            if k not in m.variables:
+                                return 'bpch(reader=%s) lacks %s' % (reader, k)
+                            a, c = np.asarray(m.variables[k][:], 'd'), np.asarray(d_.variables[k][:], 'd')
+                            if a.shape != c.shape or not np.allclose(a, c, rtol=1e-6):
+                                return 'bpch(noscale=%s, reader=%s) presents other values for %s than %s(noscale=%s) (ratio %r)' % (ns, reader, k, reader, ns, float(a.flat[0] / c.flat[0]) if c.flat[0] else None)
+                            if ns and not np.allclose(a[0], blocks[blocks.index(b)]['data'].astype('d'), rtol=1e-6):
+                                return 'bpch(noscale=True, reader=%s): values of %s are not the raw values' % (reader, k)
+                return None
+            if ci < 3:
+                run.case('C18:entry point bpch forwards its options to both readers', sig, t_master)
     finally:
         shutil.rmtree(tmp, ignore_errors=True)
     return run.result(
